@@ -206,24 +206,36 @@ func runReconf(c *Case, e *evalCtx) *reconfResult {
 		sb.WriteString(s)
 	}
 	k := 0
+	clk := int64(1000)
+	wait := old.MaxWait
 	feed := func(n int) { // the packs k.. that hold the next n records, with an idle timeout at each observed boundary
 		for n > 0 && k < len(packIDs) {
 			for _, id := range packIDs[k] {
-				put("t0")
+				put(fmt.Sprintf("t%d", clk))
 				put("a:" + e.recs[id].line())
-				put("p")
+				put(fmt.Sprintf("p%d", clk))
+				clk++
 				n--
 			}
-			put("t0")
-			put("p")
+			due := clk
+			if wait > 0 {
+				due = clk + wait
+			}
+			put(fmt.Sprintf("t%d", clk))
+			if wait > 1 {
+				put(fmt.Sprintf("p%d", due-1)) // one round just before the deadline: nothing happens
+			}
+			put(fmt.Sprintf("p%d", due))
+			clk = due + 1
 			k++
 		}
 	}
 	feed(len(rc.A))
 	put(fmt.Sprintf("c:%d,%d,%d,%d", nw.QueueCap, nw.MaxWait, nw.MaxBuf, nw.ZipMin))
+	wait = nw.MaxWait
 	feed(len(rc.B))
 	put("k")
-	put("t0")
+	put(fmt.Sprintf("t%d", clk))
 	res.modelLine = sb.String()
 	res.finds = e.finds
 	return res
